@@ -120,7 +120,7 @@ def _fmt(keys, n=3):
 def check_unlimited(host, pattern, cfg, ref, stricts, pre_filter, tag):
     for strategy in STRATS:
         for strict in stricts if strategy != "all" else stricts[:1]:
-            where = f"{tag} strategy={strategy} strict_cc_count={strict} pre_filter={pre_filter}"
+            where = f"{tag}strategy={strategy} strict_cc_count={strict} pre_filter={pre_filter}"
             got = _as_set(_call(host, pattern, strategy, cfg, strict, pre_filter=pre_filter), pattern, where)
             want = set(map(cm.key_of, ref["all"] if strategy == "all" else ref[strategy, strict]))
             if got != want:
@@ -137,7 +137,7 @@ def check_limits(host, pattern, cfg, ref, strict, k, t, pre_filter, tag, rec=Non
     """max_results=k and/or threshold=t (either may be None)."""
     truncates = False
     for strategy in STRATS:
-        where = f"{tag} strategy={strategy} strict_cc_count={strict} max_results={k} threshold={t} pre_filter={pre_filter}"
+        where = f"{tag}strategy={strategy} strict_cc_count={strict} max_results={k} threshold={t} pre_filter={pre_filter}"
         got = _as_set(_call(host, pattern, strategy, cfg, strict, max_results=k, threshold=t, pre_filter=pre_filter), pattern, where)
         full = set(map(cm.key_of, ref["all"] if strategy == "all" else ref[strategy, strict]))
         everything = set(map(cm.key_of, ref["all"]))
@@ -197,7 +197,7 @@ def _check_unmodified(before, host, pattern, tag):
     after = _mutation_guard(host, pattern)
     if after != before:
         which = "host" if after[0] != before[0] else "pattern"
-        raise Violation("input-mutated", f"{tag}: the {which} graph was modified by the search")
+        raise Violation("input-mutated", f"{tag}the {which} graph passed to find_subgraph_mappings was modified by the search")
 
 
 def _classify(rec, ref, planted=None):
